@@ -134,6 +134,8 @@ pub trait RTreeElement {
 pub struct RTree<T: RTreeElement> {
     leaf_nodes: Vec<Leaf<T>>,
     search_nodes: Vec<SearchNode>,
+    // exclusive end of every level of the tree within search_nodes, bottom-up
+    level_ends: Vec<usize>,
 }
 
 impl<T: RTreeElement + std::clone::Clone> RTree<T> {
@@ -197,8 +199,9 @@ impl<T: RTreeElement + std::clone::Clone> RTree<T> {
         let mut end = search_nodes.len();
 
         let mut level = 0;
+        let mut level_ends = vec![end];
         debug!("Creating tree nodes, start {start}, end {end}");
-        while start < end - 1 {
+        while start + 1 < end {
             debug!(
                 "level: {}, packing {} nodes [{}]",
                 level,
@@ -231,6 +234,7 @@ impl<T: RTreeElement + std::clone::Clone> RTree<T> {
             end += next.len();
             search_nodes.append(&mut next);
             next.clear();
+            level_ends.push(end);
         }
 
         debug!("Created {} search nodes", search_nodes.len());
@@ -244,7 +248,20 @@ impl<T: RTreeElement + std::clone::Clone> RTree<T> {
         RTree {
             leaf_nodes,
             search_nodes,
+            level_ends,
         }
+    }
+
+    /// number of children of a tree node whose children start at the given
+    /// index: at most BRANCHING_FACTOR, and none beyond the children's level
+    fn children_count(&self, child_start_index: usize) -> usize {
+        let level_end = self
+            .level_ends
+            .iter()
+            .copied()
+            .find(|end| child_start_index < *end)
+            .unwrap_or(child_start_index);
+        BRANCHING_FACTOR.min(level_end - child_start_index)
     }
 
     /// Returns an iterator over elements in ascending order of distance from the given coordinate
@@ -281,12 +298,19 @@ impl<'a, T: RTreeElement> RTreeNearestIterator<'a, T> {
         let mut queue = BinaryHeap::with_capacity(capacity);
 
         // Initialize with root node if tree is not empty
-        if let Some(SearchNode::TreeNode(root)) = tree.search_nodes.last() {
-            queue.push(QueueElement::new(
+        match tree.search_nodes.last() {
+            Some(SearchNode::TreeNode(root)) => queue.push(QueueElement::new(
                 root.bbox.min_distance(input_coordinate),
                 root.index,
                 QueueNodeType::TreeNode,
-            ));
+            )),
+            // a tree of at most one group of leaves has no tree node on top
+            Some(SearchNode::LeafNode(root)) => queue.push(QueueElement::new(
+                root.bbox.min_distance(input_coordinate),
+                root.index,
+                QueueNodeType::LeafNode,
+            )),
+            None => {}
         }
 
         Self {
@@ -315,8 +339,7 @@ impl<T: RTreeElement + Clone> Iterator for RTreeNearestIterator<'_, T> {
         {
             match node_type {
                 QueueNodeType::TreeNode => {
-                    let children_count =
-                        BRANCHING_FACTOR.min(self.tree.search_nodes.len() - 1 - child_start_index);
+                    let children_count = self.tree.children_count(child_start_index);
                     for i in 0..children_count {
                         match &self.tree.search_nodes[child_start_index + i] {
                             SearchNode::LeafNode(node) => self.queue.push(QueueElement::new(
@@ -333,13 +356,15 @@ impl<T: RTreeElement + Clone> Iterator for RTreeNearestIterator<'_, T> {
                     }
                 }
                 QueueNodeType::LeafNode => {
-                    for leaf_idx in 0..LEAF_PACK_FACTOR {
-                        let leaf = &self.tree.leaf_nodes[child_start_index + leaf_idx];
+                    let leaf_end =
+                        (child_start_index + BRANCHING_FACTOR).min(self.tree.leaf_nodes.len());
+                    for leaf_idx in child_start_index..leaf_end {
+                        let leaf = &self.tree.leaf_nodes[leaf_idx];
                         for (elem_idx, elem) in leaf.elements().iter().enumerate() {
                             let dist = elem.distance_to(self.input_coordinate);
                             self.queue.push(QueueElement::new(
                                 dist,
-                                child_start_index,
+                                leaf_idx,
                                 QueueNodeType::Candidate(elem_idx),
                             ));
                         }
